@@ -296,6 +296,31 @@ def gen_genint(rng):
     return case
 
 
+def gen_stair(rng):
+    """two general integers coupled by a x - b y <= r with y capped at a non-integer s / k: the LP optimum stays fractional through
+    several branchings, so one variable ends up with a branch lower bound AND a branch upper bound (a window lo..hi, lo >= 1)"""
+    a, b = rng.choice([3, 4, 5, 6]), rng.choice([2, 3, 4])
+    r = rng.randint(2, 9)
+    k = rng.choice([2, 3, 4])
+    ymax = rng.randint(3, 8)
+    s = k * ymax + rng.randint(1, k - 1)
+    rows, rhs = [[a, -b], [0, k]], [r, s]
+    xub = (r + b * ymax) // a + 1
+    rows += [[1, 0], [0, 1]]
+    rhs += [xub, 8]
+    if rng.random() < 0.5:
+        rows.append([rng.randint(1, 3), rng.randint(1, 3)])
+        rhs.append(rng.randint(8, 30))
+    c = [rng.choice([2, 3, 1]), rng.choice([0, 0, 1, -1])]
+    order = list(range(len(rows)))
+    if rng.random() < 0.5:
+        rng.shuffle(order)
+    configs = [{"minimize": False}, {"minimize": False, "heuristics": False}, {"minimize": False, "solution_limit": 2},
+               {"minimize": False, "lns_iterations": 3, "seed": 1}]
+    return {"A": [rows[i] for i in order], "b": [rhs[i] for i in order], "c": c, "ints": [1, 2], "cv": 0, "ub": [xub, 8], "configs": configs,
+            "floats": rng.random() < 0.5}
+
+
 def gen_pairrows(rng):
     """binaries with explicit x_j <= 1 rows (so bounds are tightened and up-branches FIX variables at 1), rows that involve only
     two of the integer variables with a fractional LP optimum, and at least one more variable that stays free meanwhile"""
